@@ -13,6 +13,9 @@ Case kinds (run_case dispatches on case['kind']):
   pair    calc_rdm([ds1, ds2], descriptor='cond')            (from_partials path)
   stack   calc_rdm([ds1, ds2]) without descriptor            (concat path)
   movie   calc_rdm_movie(TemporalDataset, bins=...)
+  sequence  several calc_rdm / calc_rdm_movie calls on ONE Dataset / TemporalDataset object (and one
+            shared precision matrix): every result judged against the ORIGINAL data, inputs must
+            stay bit-identical after every call
 """
 import itertools
 import sys
@@ -23,7 +26,7 @@ import numpy as np
 from mc import combi
 from mc import runner as _runner
 from mc.ref import c01_ref as ref
-from mc.util import close, reldev, rng_for, spd
+from mc.util import close, fingerprint, reldev, rng_for, spd
 
 PROPERTY = 'C01'
 LEVEL = 'exploration'
@@ -37,7 +40,11 @@ RULE = ('Every set partition of n observations into condition labels x label nam
         'datasets with equal / overlapping / disjoint condition sets, with and without condition '
         'descriptor); all matrices over {0,1,2}^(n x P) for small n, P (every tie / zero pattern); '
         'movies: every partition of the time points into bins (both bin orders) and no binning, '
-        'ascending and descending time values.  One evaluation = one real calc_rdm / '
+        'ascending and descending time values; sequences on ONE dataset object: every ordered pair '
+        'of method configurations (first call as single dataset / one-element list / same object '
+        'twice in a list; movies likewise) and chains of all configurations, each result judged '
+        'against the originally supplied data and the inputs required bit-identical after every '
+        'call.  One evaluation = one real calc_rdm / '
         'calc_rdm_movie call whose every returned entry, label and descriptor was judged; '
         'non-trivial = at least one pair value was defined and compared; distinct = distinct '
         'case descriptor (generator parameters).')
@@ -51,6 +58,9 @@ ASSUMPTIONS = [
     'channel) are excluded and counted',
     'a pattern descriptor other than the condition descriptor is only required to be right when '
     'present, not required to be present; dataset descriptors are required on the right RDM',
+    'calc_rdm / calc_rdm_movie must leave the dataset and precision they are given bit-identical '
+    '(otherwise the values of later calls on the same object no longer equal the formula on the '
+    'supplied data); checked only in the sequence family',
     'lists of datasets without condition descriptor are only generated with identical obs '
     'descriptors or with all-distinct labels (then the returned labels define the alignment)',
 ]
@@ -67,13 +77,17 @@ BOUNDS = {
                                            'labels in every row order',
               'tierA': '{0,1,2}^(n x P): (2,1..3) (3,1..2) (4,1), every partition, 6 method configurations',
               'movie': {'n_time': [1, 3], 'n_obs': [1, 3], 'n_channel': [1, 2, 3],
-                        'binnings': 'none + every partition of the time points, both bin orders'}},
+                        'binnings': 'none + every partition of the time points, both bin orders'},
+              'sequences_on_one_object': 'n_obs 2..3, n_channel 2..3, float and int, descriptor and None: all '
+                                         '16x16 ordered pairs of method configurations (x3 first-call forms on '
+                                         'one structure), 8 chains of 16 calls; movies n_time 2: 8x8 pairs'},
     'thorough': {'n_obs': '1..6, every set partition (278); row permutations: all for n<=4, identity, '
                           'reversal and every adjacent swap above',
                  'n_channel': [1, 2, 3, 4], 'fills': 3, 'combos': 8, 'method_configurations': 16,
                  'one_element_list': 'n_obs 1..5', 'list_of_two': 'n_obs 1..4 each, all 18 method configurations',
                  'tierA': 'quick + (3,3) (4,2), 13 method configurations',
-                 'movie': {'n_time': [1, 4], 'n_obs': [1, 4], 'n_channel': [1, 2, 3]}},
+                 'movie': {'n_time': [1, 4], 'n_obs': [1, 4], 'n_channel': [1, 2, 3]},
+                 'sequences_on_one_object': 'n_obs 2..4, n_channel 1..3, all first-call forms everywhere, 32 chains'},
 }
 
 TIMES = [0.0, 1.0, 3.0, 7.0]          # all subset means are distinct
@@ -645,6 +659,113 @@ def _run_movie(case, ctx):
     ctx.case(case, nontrivial=judged > 0)
 
 
+# ----------------------------------------------------------------------------- sequences on one object
+def _input_print(ds, noise):
+    return fingerprint({'m': ds.measurements, 'o': ds.obs_descriptors, 'd': ds.descriptors,
+                        'c': ds.channel_descriptors, 't': getattr(ds, 'time_descriptors', None),
+                        'noise': noise})
+
+
+def _run_sequence(case, ctx):
+    """case['steps'] = list of [method configuration, form]; all steps use the SAME dataset object.
+
+    The reference is computed from the Python-side copy of the data that was supplied (never from
+    the dataset object), so a call that alters its input makes every later result wrong here; in
+    addition the dataset (measurements and all descriptors) and the shared precision matrix must
+    be bit-identical after every call.
+    """
+    from rsatoolbox.data import Dataset, TemporalDataset
+    from rsatoolbox.rdm import calc_rdm, calc_rdm_movie
+    movie = case.get('nt') is not None
+    n, n_ch = case['n'], case['P']
+    desc = case['desc']
+    names = _naming(max(case['part']) + 1, case['naming'])
+    labels = [names[g] for g in case['part']]
+    extra = [_extra_of(lab) for lab in labels] if case['extra'] == 'const' else None
+    obs = {'cond': _mk(labels, case['container'])}
+    if extra is not None:
+        obs['extra'] = _mk(extra, case['container'])
+    dsc = {'subj': 's1', 'sess': 3}
+    if movie:
+        nt = case['nt']
+        data = _fill(ctx.seed, (n, n_ch, nt), case['dtype'], case['fill'], False)
+        times = TIMES[:nt]
+        ds = TemporalDataset(np.array(data, dtype=_np_dtype(case['dtype'])), descriptors=dsc,
+                             obs_descriptors=obs, time_descriptors={'time': np.array(times)})
+        groups = case['bins'] if case.get('bins') is not None else [[t] for t in range(nt)]
+        bins = None if case.get('bins') is None else [np.array([times[t] for t in g]) for g in case['bins']]
+    else:
+        rows = _fill(ctx.seed, (n, n_ch), case['dtype'], case['fill'], False)
+        ds = Dataset(np.array(rows, dtype=_np_dtype(case['dtype'])), descriptors=dsc, obs_descriptors=obs)
+    keys = labels if desc else list(range(n))
+    precs = {}
+    history = []
+    for si, (mconf, form) in enumerate(case['steps']):
+        sub = dict(case, step=si)
+        prec = None
+        if mconf['method'] == 'mahalanobis' and mconf.get('prec', 'none') != 'none':
+            if mconf['prec'] not in precs:        # one precision object per kind, shared by all steps
+                precs[mconf['prec']] = (_precision(mconf['prec'], n_ch, ctx.seed),
+                                        _precision(mconf['prec'], n_ch, ctx.seed))
+            prec = precs[mconf['prec']][0]
+        ref_prec = None if prec is None else precs[mconf['prec']][1]     # never handed to the library
+        mm = dict(mconf, rm=bool(mconf.get('rm')) and not movie)
+        opts = _ref_opts(mm, ref_prec)
+        before = _input_print(ds, prec)
+        tag = _mtag(mm)
+        if movie:
+            kw = _lib_kwargs(mm, prec, with_rm=False)
+            ok, rdms = _call(ctx, 'calc_rdm_movie', 'sequence-on-one-dataset', sub,
+                             lambda: calc_rdm_movie(ds, descriptor=desc, time_descriptor='time', bins=bins, **kw))
+            models = [{'rows': ref.time_slice(data, g), 'labels': labels, 'extra': extra, 'keys': keys,
+                       'subj': 's1', 'sess': 3, 'time': ref.bin_time_value(times, g), 'opts': opts}
+                      for g in groups]
+        else:
+            kw = _lib_kwargs(mm, prec)
+            if form == 'single':
+                arg, n_models = ds, 1
+            elif form == 'list1':
+                arg, n_models = [ds], 1
+            else:                                   # 'twice': the same object two times in one list
+                arg, n_models = [ds, ds], 2
+            ok, rdms = _call(ctx, 'calc_rdm', 'sequence-on-one-dataset', sub,
+                             lambda: calc_rdm(arg, descriptor=desc, **kw))
+            models = [{'rows': rows, 'labels': labels, 'extra': extra, 'keys': keys, 'subj': 's1',
+                       'sess': 3, 'opts': opts} for _ in range(n_models)]
+        judged = 0
+        if ok:
+            r_to_model = None
+            if movie:
+                tvals = rdms.rdm_descriptors.get('time')
+                if tvals is not None and rdms.n_rdm == len(models):
+                    r_to_model = []
+                    for r in range(rdms.n_rdm):
+                        hit = [i for i, m in enumerate(models) if close(tvals[r], m['time'], 1e-9)]
+                        r_to_model.append(hit[0] if len(hit) == 1 else None)
+                    if None in r_to_model or sorted(r_to_model) != list(range(len(models))):
+                        r_to_model = None
+                if r_to_model is None:
+                    ctx.fail('calc_rdm_movie|sequence-on-one-dataset|rdm-time-label', sub,
+                             'time labels %r after calls %r' % (tvals, history))
+            elif n_models == 2:
+                r_to_model = [0, 1]
+            if not movie or r_to_model is not None:
+                nfail = sum(f['count'] for f in ctx.fails.values())
+                judged = _judge(ctx, dict(sub, history=list(history)), 'calc_rdm_movie' if movie else 'calc_rdm',
+                                'sequence-on-one-dataset', mm, rdms, models, 'label' if desc else 'position',
+                                r_to_model=r_to_model)
+                if sum(f['count'] for f in ctx.fails.values()) > nfail:
+                    ctx.count('sequence_step_failed_after:%s' % (history[-1] if history else 'nothing'))
+        after = _input_print(ds, prec)
+        if after != before:
+            ctx.fail('%s|sequence-on-one-dataset,%s|input-changed' % ('calc_rdm_movie' if movie else 'calc_rdm', tag),
+                     sub, 'the call (%s, form %s, descriptor %r) altered its dataset / precision argument '
+                     '(fingerprint of measurements+descriptors+noise differs); calls before: %r' % (
+                         tag, form, desc, history))
+        history.append('%s/%s' % (tag, form))
+        ctx.case(dict(case, step=si), nontrivial=judged > 0)
+
+
 # ----------------------------------------------------------------------------- dispatch
 def run_case(case, ctx):
     kind = case['kind']
@@ -656,6 +777,8 @@ def run_case(case, ctx):
         _run_stack(case, ctx)
     elif kind == 'movie':
         _run_movie(case, ctx)
+    elif kind == 'sequence':
+        _run_sequence(case, ctx)
     else:
         raise ValueError(kind)
 
@@ -756,6 +879,15 @@ def shards(tier, seed):
                     for start in (range(0, ntc, 3) if nt >= 4 else [None]):
                         out.append({'kind': 'movie', 'nt': nt, 'n': n, 'P': n_ch, 'torder': torder,
                                     'tcs': None if start is None else [start, min(ntc, start + 3)]})
+    # G: sequences of calls on one dataset object (inputs must survive, results must not depend on history)
+    for n in ((2, 3, 4) if th else (2, 3)):
+        for n_ch in ((1, 2, 3) if th else (2, 3)):
+            for dtype in ('float', 'int'):
+                for desc in (None, 'cond'):
+                    out.append({'kind': 'sequence', 'n': n, 'P': n_ch, 'dtype': dtype, 'desc': desc})
+    for n_ch in (2, 3):
+        out.append({'kind': 'sequence', 'n': 3, 'P': n_ch, 'dtype': 'float', 'desc': None, 'nt': 2})
+        out.append({'kind': 'sequence', 'n': 3, 'P': n_ch, 'dtype': 'float', 'desc': 'cond', 'nt': 2})
     return out
 
 
@@ -897,5 +1029,39 @@ def run_shard(shard, ctx):
                         run_case(dict(base, desc='cond', tcont='list', **euc), ctx)
                         if bins is not None:
                             run_case(dict(base, desc='cond', binrep='lists', **euc), ctx)
+    elif kind == 'sequence':
+        n, n_ch = shard['n'], shard['P']
+        movie = shard.get('nt') is not None
+        mconfs = _mconfs(rm=not movie)
+        if n_ch < 2:
+            mconfs = [m for m in mconfs if m['method'] != 'correlation']
+        parts = _partitions(n)
+        if shard['desc'] is None:
+            parts = [parts[-1], parts[0]]      # labels do not matter without descriptor
+        elif n >= 4:
+            parts = [p for p in parts if max(p) >= 1][::3]
+        for pidx, part in enumerate(parts):
+            base = {'kind': 'sequence', 'n': n, 'P': n_ch, 'part': part, 'naming': ('desc', 'str', 'asc')[pidx % 3],
+                    'container': 'nd' if pidx % 2 == 0 else 'list', 'dtype': shard['dtype'],
+                    'extra': 'const' if pidx % 2 else 'none', 'fill': 0, 'desc': shard['desc']}
+            if movie:
+                for bins in (None, [[0, 1]], [[1], [0]]):
+                    mb = dict(base, nt=shard['nt'], bins=bins)
+                    for a_ in mconfs:
+                        for b_ in mconfs:
+                            run_case(dict(mb, steps=[[a_, 'movie'], [b_, 'movie']]), ctx)
+                continue
+            # every ordered pair of method configurations, first call in every input form
+            forms = ('single', 'list1', 'twice') if (pidx == 0 or th) else ('single',)
+            for form in forms:
+                for a_ in mconfs:
+                    for b_ in mconfs:
+                        run_case(dict(base, steps=[[a_, form], [b_, 'single']]), ctx)
+            # long chains: all configurations one after the other on one object, in rotated orders
+            for rot in range(0, len(mconfs), 1 if th else 4):
+                chain = mconfs[rot:] + mconfs[:rot]
+                run_case(dict(base, steps=[[m, ('single', 'list1', 'twice')[(i + rot) % 3]]
+                                           for i, m in enumerate(chain)]), ctx)
+                run_case(dict(base, steps=[[m, 'single'] for m in chain[::-1]]), ctx)
     else:
         raise ValueError(kind)
